@@ -344,6 +344,14 @@ class Program:
                 if q in self.functions:
                     return [q]
                 g = g.parent  # type: ignore[assignment]
+            if fn.id == "cls" and cls is not None and "classmethod" in owner.decorators:
+                # cls(...) inside a classmethod constructs the owning class (or a subclass)
+                out0 = self._callable_targets(cls.qualname)
+                for sc in self.subclasses(cls.qualname):
+                    for t in self._callable_targets(sc.qualname):
+                        if t not in out0:
+                            out0.append(t)
+                return out0
             q2 = self.resolve_expr(m, fn)
             return self._callable_targets(q2)
         if isinstance(fn, ast.Attribute):
